@@ -98,6 +98,23 @@ func WConfig(prop, tier string) *Config {
 		tr := blockTriples(set)
 		cfg.Phases = append(cfg.Phases, Phase{Name: "same-block-triples-depth2", Roots: []string{"R0", "R1"}, Ops: append(append([]string{}, tr...), "empty"), First: tr, Second: []string{"empty"}, Depth: 2, Dev: 4})
 	}
+	// SECOND VENUE (root R19, wide.go): a three-asset pool and a SECOND oracle / leveraged-LP / perpetual pool
+	// next to the first, positions of both modules open in both, one account with a perpetual position in each
+	if wideProps[prop] {
+		ops := append(append(append([]string{}, wideV4Ops...), wideV3Ops...), widePriceOps...)
+		ops = append(ops, "perp_bot_close_all", "llp_bot_close_all", "perp_close_full_t1", "llp_close_full_t1", "swap_in_p1_usdc_atom_L", "swap_in_p2_usdc_elys_L", "mc_claim_lp1", "fee_tx_uelys", "gap_1d", "empty")
+		d := 2
+		if tier == "thorough" {
+			d = 3
+		}
+		cfg.Phases = append(cfg.Phases, Phase{Name: fmt.Sprintf("second-venue-depth%d", d), Roots: []string{"R19"}, Ops: ops, Depth: d, Dev: 3})
+	}
+	// MULTI-MESSAGE TRANSACTIONS: every ordered pair of a same-signer op set as ONE signed transaction, and
+	// every op followed by a message that fails (the whole transaction must roll back), then an empty block
+	if set, ok := multiMsgSets[prop]; ok {
+		tp := txPairs(set)
+		cfg.Phases = append(cfg.Phases, Phase{Name: "multi-msg-tx-depth2", Roots: []string{"R1"}, Ops: append(append([]string{}, tp...), "empty", "gap_1d"), First: tp, Second: []string{"empty", "gap_1d"}, Depth: 2, Dev: 4})
+	}
 	if tier != "thorough" {
 		return devOnlyPhase(cfg)
 	}
@@ -368,6 +385,8 @@ func wConfig(prop, tier string) *Config {
 	}
 	return cfg
 }
+
+var wideProps = map[string]bool{"C01": true, "C02": true, "C06": true, "C08": true, "C09": true, "C10": true, "C11": true, "C12": true, "C13": true, "C15": true, "C18": true}
 
 var perpEdgeOps = []string{"perp_bot_liquidate_all_fwd_at_edge_long", "perp_bot_liquidate_all_rev_at_edge_long", "perp_bot_liquidate_all_fwd_at_edge_short", "perp_bot_liquidate_all_rev_at_edge_short"}
 
